@@ -362,6 +362,26 @@ def step (st : St) (toks : List String) : St × String :=
         (kv rest "leniv").bind unhexOrDash, (kv rest "count").bind String.toNat?, (kv rest "payload").bind unhexOrDash with
     | some dk, some di, some lk, some li, some n, some p => (st, hexOrDash (Spec.vmessChunkAuthLen C dk di lk li n p))
     | _, _, _, _, _, _ => (st, "bad-op")
+  | "craft.vm.body" :: rest =>
+    -- reference body chunks for ANY option mask (plain / SHAKE-masked / authenticated length, with or without global
+    -- padding), one chunk per payload (`-` = the empty chunk, the end-of-transmission mark of the reference
+    -- implementations); `forge=n`: one more chunk header whose size field says `n`, followed by 80 filler bytes
+    match (kv rest "mask").bind String.toNat?, (kv rest "sec").bind String.toNat?, (kv rest "key").bind unhexOrDash,
+        (kv rest "iv").bind unhexOrDash, kv rest "payloads" with
+    | some mask, some sec, some key, some iv, some ps =>
+      let payloads := if ps == "none" then [] else (ps.splitOn ";").filterMap unhexOrDash
+      let b0 := Vmess.Body.new C mask (Vmess.Security.ofByte sec) key iv { reqIv := iv, reqKey := key, respHeader := 0 }
+      let pad : Bytes := List.replicate 64 (0x55 : UInt8)
+      let (w, b) := payloads.foldl (fun (acc : Bytes × Vmess.Body) p =>
+        let (x, _, b') := acc.2.encodeChunk C p pad
+        (acc.1 ++ x, b')) ([], b0)
+      match (kv rest "forge").bind String.toNat? with
+      | none => (st, hexOrDash w)
+      | some n =>
+        let (_, b1) := b.nextPadding C
+        let (sz, _) := b1.encodeSize C n
+        (st, hexOrDash (w ++ sz ++ List.replicate 80 (0x33 : UInt8)))
+    | _, _, _, _, _ => (st, "bad-op")
   | "craft.vm.resp" :: rest =>
     match (kv rest "reqkey").bind unhexOrDash, (kv rest "reqiv").bind unhexOrDash, (kv rest "header").bind unhexOrDash with
     | some rk, some ri, some h => (st, hexOrDash (Spec.vmessResponseHeader C ((C.sha256 rk).take 16) ((C.sha256 ri).take 16) h))
